@@ -10,6 +10,7 @@ import (
 	"strings"
 	"sync"
 	"sync/atomic"
+	"syscall"
 	"time"
 )
 
@@ -38,15 +39,27 @@ type solveResult struct {
 }
 
 func runSolver(ctx context.Context, sc solverCfg, timeoutS, seed int, file string) solveResult {
-	args := sc.args(timeoutS, seed, file)
+	// The budget is CPU time (ulimit -t), not wall time: on a loaded machine (other checks, test
+	// builds) a wall-clock limit cuts a solver off after a fraction of its budget and an obligation
+	// that discharges in a second when the machine is idle is reported as a timeout. The solver's own
+	// wall limit and the context deadline are a backstop at wallFactor times the budget.
+	const wallFactor = 6
+	args := sc.args(timeoutS*wallFactor, seed, file)
 	t0 := time.Now()
-	cctx, cancel := context.WithTimeout(ctx, time.Duration(timeoutS+2)*time.Second)
+	cctx, cancel := context.WithTimeout(ctx, time.Duration(timeoutS*wallFactor+2)*time.Second)
 	defer cancel()
-	cmd := exec.CommandContext(cctx, args[0], args[1:]...)
+	sh := append([]string{"-c", fmt.Sprintf("ulimit -t %d; exec \"$@\"", timeoutS+1), "sh"}, args...)
+	cmd := exec.CommandContext(cctx, "/bin/sh", sh...)
 	var out bytes.Buffer
 	cmd.Stdout = &out
 	cmd.Stderr = &out
 	_ = cmd.Run()
+	cpuKilled := false
+	if ps := cmd.ProcessState; ps != nil {
+		if ws, ok := ps.Sys().(syscall.WaitStatus); ok && ws.Signaled() && cctx.Err() == nil {
+			cpuKilled = true
+		}
+	}
 	d := time.Since(t0).Seconds()
 	text := out.String()
 	first := ""
@@ -68,7 +81,7 @@ func runSolver(ctx context.Context, sc solverCfg, timeoutS, seed int, file strin
 		r = "sat"
 	case first == "unknown":
 		r = "unknown"
-	case strings.Contains(first, "timeout") || cctx.Err() != nil:
+	case strings.Contains(first, "timeout") || cctx.Err() != nil || cpuKilled:
 		r = "timeout"
 	}
 	if len(text) > 4000 {
